@@ -204,10 +204,12 @@ func (sc *SlotChain) Entry(ctx *EntryContext) *TokenResult {
 	// execute statistic slot
 	ss := sc.stats
 	ruleCheckRet = ctx.RuleCheckResult
+	passed := !ruleCheckRet.IsBlocked()
+	ctx.passNotified = passed
 	if len(ss) > 0 {
 		for _, s := range ss {
 			// indicate the result of rule based checking slot.
-			if !ruleCheckRet.IsBlocked() {
+			if passed {
 				s.OnEntryPassed(ctx)
 			} else {
 				// The block error should not be nil.
@@ -225,7 +227,8 @@ func (sc *SlotChain) exit(ctx *EntryContext) {
 		return
 	}
 	// The OnCompleted is called only when entry passed
-	if ctx.IsBlocked() {
+	// and the StatSlots were told so (not the case when a slot panicked in Entry)
+	if ctx.IsBlocked() || !ctx.passNotified {
 		return
 	}
 	for _, s := range sc.stats {
